@@ -76,6 +76,15 @@ Theorem C09_p1_dofs_injective : forall g sup incl trunc, grid_ok g -> support_in
 Proof. exact c09_p1_dofs_injective. Qed.
 Print Assumptions C09_p1_dofs_injective.
 
+(* partition of unity: where every vertex of a selected element is selected (always with include_boundary_dofs; on a
+   closed grid taken as a whole) all three multipliers are 1; with C09_reference_p1 (sum of the three reference
+   functions = 1) the P1 basis sums to one on that element.  DP0: the single function is the constant 1. *)
+Theorem C09_partition_of_unity : forall g sup incl trunc, grid_ok g -> support_in_range g sup ->
+  forall x, sup x = true -> (forall k, k < 3 -> sel g sup incl (elems g x k) = true) ->
+  supp (p1_space g sup incl trunc) x = true /\ forall k, k < 3 -> mult (p1_space g sup incl trunc) x k = 1%Z.
+Proof. exact c09_p1_full_multipliers. Qed.
+Print Assumptions C09_partition_of_unity.
+
 (* dof count = number of selected entities, for non-empty selections ... *)
 Theorem C09_dof_count : forall g sup incl trunc, grid_ok g -> support_in_range g sup ->
   (1 <= p1_selected_count g sup incl trunc ->
